@@ -21,7 +21,7 @@ TYPES = ["string", "date", "number", "unquoted", "yesno"]
 BENIGN = {"string": "abc", "date": "2024-01-15", "number": 7, "unquoted": "status", "yesno": True}
 
 STRINGS = ["", "abc", "it's", "''", "'", "a''b", "x' OR '1'='1", "x' OR '1'='1' --", "2024-02-01' OR '1'='1", "a;b", "a; DROP TABLE orders; --", "/* c */", "-- c",
-           "line1\nline2", "tab\there", "back\\slash", "back\\' OR 1=1 --", "{{ p }}", "{% if x %}", "{# c #}", "SELECT", "NULL", "true", "today", "yesterday",
+           "line1\nline2", "tab\there", "back\\slash", "back\\' OR 1=1 --", "{{ p }}", "{{ p_number }}", "over {{ p_yesno }} x", "{{p_date}}", "{{ p_string }}", "{{ p_unquoted }}", "{% if x %}", "{# c #}", "SELECT", "NULL", "true", "today", "yesterday",
            "last 7 days", "this month", "nan", "NaN", "inf", "-inf", "Infinity", "1e309", "1.5", "-2", "1e5", "0x10", "1_000", " 12 ", "12abc", "a.b", "a_b1", "a-b", "a b",
            "status", "orders.status", "1=1", "\"q\"", "%", "_", ".", "__", "9" * 40, "z" * 300 + "'", "\u00e9t\u00e9", "\u4e2d\u6587'", "\U0001F600"]
 
@@ -185,6 +185,51 @@ def tree_shape(sql):
     return tree.sql(dialect="duckdb"), n_lit
 
 
+def where_strings(sql):
+    """decoded contents of the string literals under WHERE (None when the SQL does not parse)"""
+    import sqlglot
+    from sqlglot import exp
+    try:
+        tree = sqlglot.parse_one(sql, read="duckdb")
+    except Exception:
+        return None
+    out = set()
+    for w in tree.find_all(exp.Where):
+        for lit in w.find_all(exp.Literal):
+            if lit.is_string:
+                out.add(lit.this)
+    return out
+
+
+def two_parameter_cases(c):
+    """values that name ANOTHER declared parameter: substitution must be single-pass (the inserted text is never re-scanned)"""
+    layer = make_layer()
+    kw = dict(metrics=["orders.n"], dimensions=["orders.status"])
+    n = 0
+    for tpl, params, must in [
+        ("orders.status = {{ p_string }}", {"p_string": "{{ p_date }}", "p_date": " OR 1=1 OR orders.status = "}, "{{ p_date }}"),
+        ("orders.status = {{ p_string }} AND orders.created >= {{ p_date }}", {"p_string": "{{ p_date }}", "p_date": "2024-01-01"}, "{{ p_date }}"),
+        ("orders.created >= {{ p_date }} AND orders.status = {{ p_string }}", {"p_date": "{{ p_string }}", "p_string": "zzz"}, "{{ p_string }}"),
+        ("orders.status = {{ p_string }}", {"p_string": "{{ p_number }}", "p_number": 5}, "{{ p_number }}"),
+        ("orders.status = {{ p_string }}", {"p_string": "{{ p_yesno }} {{ p_unquoted }}", "p_unquoted": "amount"}, "{{ p_yesno }} {{ p_unquoted }}"),
+    ]:
+        n += 1
+        benign = tree_shape(layer.compile(filters=[tpl], parameters={k: BENIGN[k[2:]] for k in params}, **kw))
+        try:
+            sql = layer.compile(filters=[tpl], parameters=params, **kw)
+        except Exception:
+            continue
+        ws = where_strings(sql)
+        try:
+            shape = tree_shape(sql)
+        except Exception:
+            shape = None
+        if shape != benign or ws is None or must not in ws:
+            c.violation("a parameter value that names another parameter is substituted again (template %r)" % tpl,
+                        {"kind": "e2e2", "template": tpl, "parameters": {k: repr(v) for k, v in params.items()}, "sql": sql[-600:]})
+    return n
+
+
 def is_relative(v):
     from sidemantic.core.relative_date import RelativeDateRange
     try:
@@ -219,6 +264,11 @@ def e2e(c, vals):
                 except Exception as e:
                     shape = ("<unparseable: %s>" % type(e).__name__, -1)
                 if shape == benign_shape:
+                    # same structure: for string / date parameters the literal must also carry the value unchanged
+                    if ty in ("string", "date") and kind == "str" and not is_relative(v) and where_strings(sql) is not None and v not in where_strings(sql):
+                        c.violation("a %s parameter value does not arrive unchanged in its literal (template %r)" % (ty, tpl),
+                                    {"kind": "e2e", "type": ty, "template": tpl, "value_kind": kind, "value": repr(v), "sql": sql[-600:], "benign_sql": benign_sql[-600:]})
+                        continue
                     shapes_ok += 1
                     continue
                 # classify
@@ -322,6 +372,7 @@ def run(c):
     evals += n_lit
     # (c) end to end through compile()
     n_e2e, ok_e2e = e2e(c, vals if c.tier == "thorough" else vals[:len(STRINGS) + 25])
+    n_e2e += two_parameter_cases(c)
     c.obligation("e2e: compile() tree identical up to literals for %d (template, value) pairs" % n_e2e, not c.violations, "correspondence")
     evals += n_e2e
     known_witnesses(c)
